@@ -182,6 +182,7 @@ type c07Case struct {
 	CustomErr  bool   `json:"custom_error_handler"`
 	CustomRec  bool   `json:"custom_recover_handler"`
 	Status     int    `json:"status"`         // explicit status written by the handler first (0: none)
+	TryHijack  bool   `json:"handler_tries_to_hijack_first"` // the connection cannot be hijacked (the writer says so): the handler answers normally
 	Forward    bool   `json:"forward"`        // the addressed route hands its Response to a nested Dispatch for the real route
 	Real       bool   `json:"real_server"`    // the container sits behind a real net/http server; an http.Client reads the response
 	Reused     bool   `json:"builder_reused"` // each RouteBuilder goes on to build a sibling route with the opposite encoding setting
@@ -220,7 +221,7 @@ func valid07(k *c07Case) bool {
 
 func c07(ctx *core.Ctx) {
 	quietLogs()
-	ctx.Rule("matrix: entry {ServeHTTP, Dispatch, Handle, HandleWithFilter} x container switch x route override {unset, off, on} x Accept-Encoding (12 values) x pre-set Content-Encoding x provider {sync.Pool, bounded 0/1/4, custom non-pooling, custom recycling-on-release} x outcome {ok, 404, 405, 406, 415, panic before output, panic after partial output} x writer already a CompressingResponseWriter x payload {0, 1, 100, 70000 (1 MB thorough), 512/1024/4096/8192/32768/65536/131072/196608/262144 +-1} in random chunks, one call, byte by byte or all-but-the-last-byte across a container filter (before/after) and the handler, explicit handler statuses {none, 200, 201, 206, 404, 500}, forwarding handlers (Response handed to a nested Dispatch before anything is written), RouteBuilders reused afterwards for a sibling route with the opposite setting (a third of the cells); custom or default error/recover writers; every 5th ServeHTTP cell runs behind a real net/http server and is read by an http.Client (no transparent decompression). quick: seeded random sample of cells; thorough: the full product of the switch dimensions, forty payload/chunkings per cell. Oracle per response: applied coding => label in {gzip,deflate}, Accept-Encoding mentions it, encoding enabled for the request, complete-stream decode == logged bytes; else body == logged bytes and no Content-Encoding added. Non-trivial = a response with a non-empty body or an applied coding; distinct by the switch cell (entry, cont, route, AE, preset, outcome, prewrapped, applied).")
+	ctx.Rule("matrix: entry {ServeHTTP, Dispatch, Handle, HandleWithFilter} x container switch x route override {unset, off, on} x Accept-Encoding (12 values) x pre-set Content-Encoding x provider {sync.Pool, bounded 0/1/4, custom non-pooling, custom recycling-on-release} x outcome {ok, 404, 405, 406, 415, panic before output, panic after partial output} x writer already a CompressingResponseWriter x payload {0, 1, 100, 70000 (1 MB thorough), 512/1024/4096/8192/32768/65536/131072/196608/262144 +-1} in random chunks, one call, byte by byte or all-but-the-last-byte across a container filter (before/after) and the handler, explicit handler statuses {none, 200, 201, 206, 404, 500}, forwarding handlers (Response handed to a nested Dispatch before anything is written; every other one adds a footer afterwards, which counts as written iff the call reports success), handlers that first try to hijack the connection and answer normally when that fails, RouteBuilders reused afterwards for a sibling route with the opposite setting (a third of the cells); custom or default error/recover writers; every 5th ServeHTTP cell runs behind a real net/http server and is read by an http.Client (no transparent decompression). quick: seeded random sample of cells; thorough: the full product of the switch dimensions, forty payload/chunkings per cell. Oracle per response: applied coding => label in {gzip,deflate}, Accept-Encoding mentions it, encoding enabled for the request, complete-stream decode == logged bytes; else body == logged bytes and no Content-Encoding added. Non-trivial = a response with a non-empty body or an applied coding; distinct by the switch cell (entry, cont, route, AE, preset, outcome, prewrapped, applied).")
 	ctx.Assume("the property does not demand that a coding is applied when enabled; evidence reports how many responses were encoded",
 		"with the default recover handler the stack text is not predictable: prefix and stream completeness are judged")
 	defer restful.SetCompressorProvider(restful.NewSyncPoolCompessors())
@@ -310,7 +311,8 @@ func c07(ctx *core.Ctx) {
 		}
 		k.FilterPre, k.FilterPost = r.Chance(1, 3), r.Chance(1, 3)
 		k.Status = []int{0, 0, 200, 201, 206, 404, 500}[r.Intn(7)]
-		k.Forward = (k.Entry == "ServeHTTP" || k.Entry == "Dispatch") && r.Chance(1, 6)
+		k.Forward = r.Chance(1, 6)
+		k.TryHijack = r.Chance(1, 8)
 		if k.FilterPre {
 			k.Status = 0 // the filter has already sent the status line
 		}
@@ -402,6 +404,13 @@ func runC07(k *c07Case, seed uint64, ae string) (*c07Obs, []byte) {
 	}
 	ws := new(restful.WebService).Path("/e")
 	okRoute := ws.GET("/ok").To(func(req *restful.Request, resp *restful.Response) {
+		if k.TryHijack && !k.Real { // (behind a real server the connection CAN be hijacked: not this scenario)
+			// a handler that would like to take over the connection (websocket upgrade) and falls back to a normal answer
+			if conn, _, err := resp.Hijack(); err == nil {
+				conn.Close()
+				return
+			}
+		}
 		if k.Status != 0 && k.Outcome == "ok" {
 			resp.WriteHeader(k.Status)
 		}
@@ -422,6 +431,17 @@ func runC07(k *c07Case, seed uint64, ae string) (*c07Obs, []byte) {
 		r2.URL = &u
 		r2.RequestURI = "/e/ok"
 		c.Dispatch(resp, r2)
+		if k.Payload%2 == 0 {
+			// and adds a footer of its own afterwards: it counts as written if (and only if) the call reports success
+			footer := []byte("<<footer-after-forward>>")
+			if n, err := resp.Write(footer); err == nil && n == len(footer) {
+				if l := wlogOf(req.Request); l != nil {
+					l.mu.Lock()
+					l.b.Write(footer)
+					l.mu.Unlock()
+				}
+			}
+		}
 	})
 	jsonRoute := ws.GET("/json").Produces(restful.MIME_JSON).To(func(req *restful.Request, resp *restful.Response) {})
 	postRoute := ws.POST("/post").Consumes(restful.MIME_JSON).To(func(req *restful.Request, resp *restful.Response) {})
@@ -439,7 +459,28 @@ func runC07(k *c07Case, seed uint64, ae string) (*c07Obs, []byte) {
 		}
 	}
 	c.Add(ws)
-	plain := http.HandlerFunc(func(w http.ResponseWriter, r *http.Request) { writeChunks(w, r, -1) })
+	plain := http.HandlerFunc(func(w http.ResponseWriter, r *http.Request) {
+		if k.Forward && k.Outcome == "ok" && r.URL.Path != "/e/ok" {
+			// a plain handler that forwards to the container's dispatcher and adds a footer afterwards: the footer counts as
+			// written if (and only if) the call reports success
+			r2 := r.Clone(r.Context())
+			u := *r.URL
+			u.Path = "/e/ok"
+			r2.URL = &u
+			r2.RequestURI = "/e/ok"
+			c.Dispatch(w, r2)
+			footer := []byte("<<footer-of-the-plain-handler>>")
+			if n, err := w.Write(footer); err == nil && n == len(footer) {
+				if l := wlogOf(r); l != nil {
+					l.mu.Lock()
+					l.b.Write(footer)
+					l.mu.Unlock()
+				}
+			}
+			return
+		}
+		writeChunks(w, r, -1)
+	})
 	if k.Payload%3 == 1 {
 		// the switch had another position while the handlers were registered; the position at request time counts
 		c.EnableContentEncoding(!k.Cont)
@@ -450,7 +491,7 @@ func runC07(k *c07Case, seed uint64, ae string) (*c07Obs, []byte) {
 
 	req := rt.Req{Method: "GET", Path: "/e/ok", Hdr: map[string]string{}}
 	if k.Forward && k.Outcome == "ok" {
-		req.Path = "/e/fwd"
+		req.Path = "/e/fwd" // (entries Handle / HandleWithFilter: their plain handler forwards, see below)
 	}
 	switch k.Outcome {
 	case "404":
@@ -488,6 +529,10 @@ func runC07(k *c07Case, seed uint64, ae string) (*c07Obs, []byte) {
 		outer, _ = restful.NewCompressingResponseWriter(rec, "gzip")
 		w = outer
 		obs.CallerCE = "gzip"
+	} else if k.TryHijack && k.Payload%2 == 1 {
+		// the container is the handler of an outer layer that handed it a *restful.Response: that writer HAS a Hijack method,
+		// which reports that the connection underneath cannot be taken over
+		w = restful.NewResponse(rec)
 	}
 	func() {
 		defer func() { obs.Panic = recover() }()
